@@ -741,6 +741,9 @@ class Path(parent.Geometry):
         )
 
         cache = {}
+        # make sure cached values are for our current data and
+        # not from before vertices or entities were changed in-place
+        self._cache.verify()
         # try to copy the cache over to the new object
         try:
             # save dict keys before doing slow iteration
